@@ -58,13 +58,17 @@ def run(ctx):
         site = ctx.site(fnp)
         scr = D.script_of(evs)
         LEN = 'serialize::SealableOutputBuffer::len(self.inner.outbuf)'
-        HI = '($m2 && (%s > self.buffered_writes_high_water))' % LEN
-        LO = '(!$m2 && (%s <= self.buffered_writes_low_water))' % LEN
+        # canonical guard forms: a conjunction is a chain of guards, `len > hw` is (hw < len), `len <= lw` is (lw < len) failing,
+        # and the else of `listening && len > hw` is the disjunction of the negations
+        ABOVE = '(self.buffered_writes_high_water < %s)' % LEN
+        HI = 'if($m2) > if(%s)' % ABOVE
+        NOT_HI = 'if((!$m2 || !%s))' % ABOVE
+        LO = 'unless($m2) > unless((self.buffered_writes_low_water < %s))' % LEN
         pre = 'loop > unless(mio::Events::is_empty($m1)) > unless(value:is_done(self, state)) > '
-        want = [pre + 'if(%s) > io_loop::Inner::deregister_nonzero_channels(self.inner, self.poll)' % HI,
-                pre + 'if(%s) > $m2 = false' % HI,
-                pre + 'unless(%s) > if(%s) > io_loop::Inner::reregister_nonzero_channels(self.inner, self.poll)' % (HI, LO),
-                pre + 'unless(%s) > if(%s) > $m2 = true' % (HI, LO)]
+        want = [pre + '%s > io_loop::Inner::deregister_nonzero_channels(self.inner, self.poll)' % HI,
+                pre + '%s > $m2 = false' % HI,
+                pre + '%s > %s > io_loop::Inner::reregister_nonzero_channels(self.inner, self.poll)' % (NOT_HI, LO),
+                pre + '%s > %s > $m2 = true' % (NOT_HI, LO)]
         got = [l for l in scr if 'register_nonzero_channels' in l or l.endswith('$m2 = false') or l.endswith('$m2 = true')]
         r.eq('edges', got, want, site, why='throttle strictly above the high-water mark, resume at or below the low-water mark, after each event batch')
         snaps = [S.show(e.term) for e in evs if e.kind == 'snapshot' and S.show(e.lhs) == '$m2']
